@@ -25,6 +25,8 @@ pub struct Ctx {
     pub scale: f64,
     /// Miri / tiny mode: shrink everything.
     pub tiny: bool,
+    /// (index, count): run only the cases whose index is congruent to `index` modulo `count`
+    pub shard: Option<(u64, u64)>,
 }
 
 impl Ctx {
@@ -67,6 +69,8 @@ pub struct Report {
     pub inconclusive_notes: Vec<String>,
     pub harness_errors: Vec<String>,
     pub exhaustive: Vec<String>,
+    /// distinct non-trivial cases counted elsewhere (child processes) whose fingerprints are not here
+    pub extra_distinct: u64,
 }
 
 impl Report {
@@ -142,6 +146,7 @@ impl Report {
                 }
             }
         }
+        self.extra_distinct += o.extra_distinct;
         self.inconclusive += o.inconclusive;
         for n in o.inconclusive_notes {
             if self.inconclusive_notes.len() < 5 {
@@ -157,6 +162,44 @@ impl Report {
             }
         }
     }
+    /// Rebuild a report from the JSON a child process wrote (fingerprints are not transferred;
+    /// children run disjoint case indices, so their distinct counts add up).
+    pub fn from_json(v: &Value) -> Report {
+        let mut r = Report::new();
+        r.evaluations = v["evaluations"].as_u64().unwrap_or(0);
+        r.extra_distinct = v["distinct_nontrivial"].as_u64().unwrap_or(0);
+        if let Some(a) = v["samples"].as_array() {
+            for s in a {
+                r.sample(s.clone());
+            }
+        }
+        if let Some(m) = v["counters"].as_object() {
+            for (k, x) in m {
+                if let Some(n) = x.as_u64() {
+                    if k.starts_with("max_") {
+                        r.max(k, n);
+                    } else {
+                        r.count(k, n);
+                    }
+                }
+            }
+        }
+        if let Some(a) = v["violations"].as_array() {
+            for x in a {
+                let sig = x["signature"].as_str().unwrap_or("?").to_string();
+                r.violations.insert(sig.clone(), Viol { signature: sig, detail: x["detail"].as_str().unwrap_or("").to_string(), replay: x["replay"].clone(), count: x["count"].as_u64().unwrap_or(1) });
+            }
+        }
+        r.inconclusive = v["inconclusive"].as_u64().unwrap_or(0);
+        if let Some(a) = v["inconclusive_notes"].as_array() {
+            r.inconclusive_notes = a.iter().filter_map(|x| x.as_str().map(|s| s.to_string())).collect();
+        }
+        if let Some(a) = v["harness_errors"].as_array() {
+            r.harness_errors = a.iter().filter_map(|x| x.as_str().map(|s| s.to_string())).collect();
+        }
+        r
+    }
+
     pub fn to_json(&self, lane: &str) -> Value {
         let mut counters = serde_json::Map::new();
         for (k, v) in &self.counters {
@@ -168,7 +211,7 @@ impl Report {
         json!({
             "lane": lane,
             "evaluations": self.evaluations,
-            "distinct_nontrivial": self.fps.len(),
+            "distinct_nontrivial": self.fps.len() as u64 + self.extra_distinct,
             "samples": self.samples,
             "counters": counters,
             "violations": self.violations.values().map(|v| json!({
@@ -287,6 +330,11 @@ where
                         let i = next.fetch_add(1, Ordering::SeqCst);
                         if i >= n {
                             break;
+                        }
+                        if let Some((s, k)) = ctx.shard {
+                            if i % k != s {
+                                continue;
+                            }
                         }
                         if i % 16 == 0 && Instant::now() > deadline {
                             rep.count("stopped_by_time_budget", 1);
